@@ -1869,6 +1869,153 @@ fn section_c5(run: &Run, seed: u64, n_programs: usize) {
 	}
 }
 
+/// C6: Merkle proofs in MMRs far too tall to build. A proof only touches one branch, so the MMR with 2^k + r leaves is
+/// given by definition: a random element at a random leaf of one peak, random hashes for its siblings up to the peak
+/// and for the other peaks; positions by the layout of perfect subtrees in postorder (u128 arithmetic), parent hash over
+/// (position, left, right), peaks bagged right to left with the size. The path of the definition — siblings, the bag
+/// of the peaks to the right, then the peaks to the left nearest first — must verify for exactly that element and
+/// position against that root, and none of the corruptions may.
+fn section_c6(run: &Run, seed: u64, per_height: usize) {
+	let mut pr = Prng::new(seed ^ 0xC6C6);
+	let rh = |pr: &mut Prng| -> Hash {
+		let mut b = [0u8; 32];
+		for c in b.chunks_mut(8) {
+			c.copy_from_slice(&pr.next_u64().to_be_bytes());
+		}
+		Hash::from_vec(&b)
+	};
+	for k in 1u32..=61 {
+		for rep in 0..per_height {
+			// leaf counts: exact power of two, just above it, and others with more peaks
+			let r: u64 = match rep % 6 {
+				0 => 0,
+				1 => 1,
+				2 => 2 + pr.below(6),
+				3 => {
+					if k >= 2 {
+						1u64 << (k - 1)
+					} else {
+						1
+					}
+				}
+				4 => ((1u64 << k) - 1) & pr.next_u64(),
+				_ => pr.below(1u64 << k.min(20)),
+			};
+			let r = r.min((1u64 << k) - 1);
+			let n_leaves: u64 = (1u64 << k) + r;
+			// peaks (left to right): (start position, height), by the binary decomposition of the leaf count
+			let mut peaks: Vec<(u128, u32)> = vec![];
+			let mut start: u128 = 0;
+			for b in (0..=k).rev() {
+				if n_leaves & (1u64 << b) != 0 {
+					peaks.push((start, b));
+					start += (1u128 << (b + 1)) - 1;
+				}
+			}
+			let size = start; // number of nodes
+			if size >= (1u128 << 63) {
+				continue;
+			}
+			let size = size as u64;
+			// the peak the leaf sits under: the tallest one mostly, any other now and then
+			let j = if peaks.len() > 1 && rep % 3 == 2 { pr.usize_below(peaks.len()) } else { 0 };
+			let (pstart, ph) = peaks[j];
+			let leaf_in_peak: u64 = if ph == 0 { 0 } else { pr.next_u64() & ((1u64 << ph) - 1) };
+			// walk down from the peak's root to the leaf, then hash up
+			let mut st = pstart;
+			let mut sibs_top_down: Vec<(u128, bool)> = vec![]; // (parent position, leaf side is left)
+			for h in (1..=ph).rev() {
+				let parent = st + (1u128 << (h + 1)) - 2;
+				let go_right = (leaf_in_peak >> (h - 1)) & 1 == 1;
+				sibs_top_down.push((parent, !go_right));
+				if go_right {
+					st += (1u128 << h) - 1;
+				}
+			}
+			let leaf_pos = st as u64;
+			let elem = TestElem([pr.next_u32(), pr.next_u32(), pr.next_u32(), pr.next_u32()]);
+			let mut path: Vec<Hash> = vec![];
+			let mut node = elem.hash_with_index(leaf_pos);
+			for (parent, node_is_left) in sibs_top_down.iter().rev() {
+				let sib = rh(&mut pr);
+				path.push(sib);
+				node = if *node_is_left { (node, sib).hash_with_index(*parent as u64) } else { (sib, node).hash_with_index(*parent as u64) };
+			}
+			// peaks to the right, bagged; peaks to the left
+			let right: Vec<Hash> = (j + 1..peaks.len()).map(|_| rh(&mut pr)).collect();
+			let left: Vec<Hash> = (0..j).map(|_| rh(&mut pr)).collect();
+			let mut acc = node;
+			if !right.is_empty() {
+				let mut bag = *right.last().unwrap();
+				for hsh in right.iter().rev().skip(1) {
+					bag = (*hsh, bag).hash_with_index(size);
+				}
+				path.push(bag);
+				acc = (acc, bag).hash_with_index(size);
+			}
+			for hsh in left.iter().rev() {
+				path.push(*hsh);
+				acc = (*hsh, acc).hash_with_index(size);
+			}
+			let root = acc;
+			let proof = MerkleProof { mmr_size: size, path: path.clone() };
+			let cls = format!("C6:k={};peaks={};under={}", k, peaks.len().min(4), if j == 0 { "tallest" } else { "other" });
+			run.eval(&cls, true);
+			run.count("C6.tall_proofs_by_definition", 1);
+			if path.len() as u32 == k + 1 {
+				run.count("C6.paths_of_maximal_length_k_plus_1", 1);
+			}
+			let replay = json!({"section": "C6", "k": k, "n_leaves": n_leaves.to_string(), "size": size.to_string(), "leaf_pos": leaf_pos.to_string(), "peak_index": j, "path_len": path.len(), "seed": seed});
+			match catch(|| proof.verify(root, &elem, leaf_pos)) {
+				Ok(Ok(())) => {}
+				Ok(Err(e)) => {
+					run.violation(
+						&format!("section=C6;fn=MerkleProof::verify;event=honest_proof_fails;under={}", if j == 0 { "tallest_peak" } else { "other_peak" }),
+						&format!("the proof by definition of the leaf at position {} in the MMR with 2^{} + {} leaves (size {}, path of {} hashes) does not verify: {:?}", leaf_pos, k, r, size, path.len(), e),
+						replay.clone(),
+					);
+					return;
+				}
+				Err(p) => {
+					run.violation(&format!("section=C6;fn=MerkleProof::verify;event=panic@{}", p.location), &p.message, replay.clone());
+					return;
+				}
+			}
+			// corruptions
+			let other = TestElem([elem.0[0] ^ 1, elem.0[1], elem.0[2], elem.0[3]]);
+			let mut bad: Vec<(&str, bool)> = vec![("other_element", proof.verify(root, &other, leaf_pos).is_ok())];
+			if !path.is_empty() {
+				let idx = pr.usize_below(path.len());
+				let mut p2 = path.clone();
+				p2[idx] = rh(&mut pr);
+				bad.push(("path_hash_replaced", MerkleProof { mmr_size: size, path: p2 }.verify(root, &elem, leaf_pos).is_ok()));
+				let mut p3 = path.clone();
+				p3.pop();
+				bad.push(("path_shortened", MerkleProof { mmr_size: size, path: p3 }.verify(root, &elem, leaf_pos).is_ok()));
+			}
+			let mut p4 = path.clone();
+			p4.push(rh(&mut pr));
+			bad.push(("path_lengthened", MerkleProof { mmr_size: size, path: p4 }.verify(root, &elem, leaf_pos).is_ok()));
+			if ph >= 1 {
+				// the sibling leaf's position
+				let sib_leaf = if leaf_in_peak & 1 == 0 { leaf_pos + 1 } else { leaf_pos - 1 };
+				bad.push(("position_of_the_sibling_leaf", proof.verify(root, &elem, sib_leaf).is_ok()));
+			}
+			for (name, accepted) in bad {
+				run.count("C6.corruptions_checked", 1);
+				if accepted {
+					run.violation(
+						&format!("section=C6;fn=MerkleProof::verify;event=corrupted_proof_verifies;class={}", name),
+						&format!("k={} r={} leaf position {}: corruption '{}' verifies", k, r, leaf_pos, name),
+						replay.clone(),
+					);
+					return;
+				}
+			}
+		}
+	}
+}
+
 /// C2: rewind of the mutable PMMR over VecBackend: from one base MMR to every
 /// position, then pushes on top; plus random push/rewind programs.
 fn section_c2(run: &Run, seed: u64, rw_leaves: usize, n_programs: usize, budget_s: f64) {
@@ -2939,6 +3086,7 @@ fn main() {
 	section_c2(&run, seed, c2_leaves, c2_programs, cap(bud_c2));
 	section_c4(&run, seed, run.tier.pick(300, 3000));
 	section_c5(&run, seed, if san { 40 } else { run.tier.pick(400, 4000) });
+	section_c6(&run, seed, if san { 6 } else { run.tier.pick(30, 300) });
 	eprintln!("[C07] C2 done at {:.1}s", t0.elapsed().as_secs_f64());
 	let mut targets: Vec<usize> = vec![
 		1usize << c3_hi_bits,
@@ -3021,6 +3169,11 @@ fn main() {
 		"states of one long-lived PMMR compared right after an injected backend error (C5)",
 		run.counter("C5.states_compared_right_after_a_backend_error"),
 		if san { 50 } else { run.tier.pick(800, 8000) },
+	);
+	run.require(
+		"proofs by definition in MMRs of 2^k + r leaves, k up to 61, with paths of the maximal length k + 1 (C6)",
+		run.counter("C6.paths_of_maximal_length_k_plus_1"),
+		if san { 60 } else { run.tier.pick(300, 3000) },
 	);
 	run.require(
 		"n_unpruned_leaves comparisons (file backend)",
